@@ -51,16 +51,21 @@ def project(ob, keys):
     return {k: ob.get(k) for k in keys}
 
 
-def gotest(path, place, tests):
+def gotest(path, place, tests, race=None):
     """run the Go tests of one witness file against the repository under test WITHOUT touching it: the file is injected
     into the package with `go test -overlay`. Returns (failed test names, whole log, built?)."""
     import re, subprocess, tempfile
     ov = tempfile.NamedTemporaryFile('w', suffix='.json', delete=False, dir=runner.BUILD)
     json.dump({'Replace': {os.path.join(runner.REPO, place, 'zz_verif_' + os.path.basename(path)): os.path.abspath(path)}}, ov)
     ov.close()
+    if race is None:     # a reproducer that needs the race detector says so in its first line
+        race = '-race' in open(path).readline()
+    env = dict(runner.GOENV)
+    if race:
+        env.pop('CGO_ENABLED', None)     # the race detector needs cgo
     try:
-        p = subprocess.run(['go', 'test', '-count=1', '-vet=off', '-overlay', ov.name, '-run', '^(%s)$' % '|'.join(tests), './' + place + '/'],
-                           cwd=runner.REPO, env=runner.GOENV, stdout=subprocess.PIPE, stderr=subprocess.STDOUT, text=True, timeout=900)
+        p = subprocess.run(['go', 'test', '-count=1', '-vet=off'] + (['-race'] if race else []) + ['-overlay', ov.name, '-run', '^(%s)$' % '|'.join(tests), './' + place + '/'],
+                           cwd=runner.REPO, env=env, stdout=subprocess.PIPE, stderr=subprocess.STDOUT, text=True, timeout=900)
     finally:
         os.remove(ov.name)
     log = p.stdout
